@@ -263,7 +263,7 @@ func (e *Exec) scanCallMods(fn *ssa.Function, c *ssa.CallCommon, ms *modSet, see
 
 func isIntrinsic(nm string) bool {
 	switch nm {
-	case "specAssert", "specAssume", "vcForall", "vcExists", "vcTrigger1", "vcTrigger2", "vcTrigger3", "vcOldBegin", "vcOld", "vcMod1", "vcModElems", "vcModMap", "vcFresh":
+	case "specAssert", "specAssume", "vcForall", "vcExists", "vcTrigger1", "vcTrigger2", "vcTrigger3", "vcOldBegin", "vcOld", "vcMod1", "vcModElems", "vcModMap", "vcFresh", "vcByteStr":
 		return true
 	}
 	return false
@@ -286,6 +286,14 @@ func (e *Exec) namedLocal(fr *frame, st *State, name string, li *loopInfo) (Valu
 				if r, ok2 := n.Iter.(*ssa.Range); ok2 && n.IsString {
 					return st.cells[fr.iterPos[r]], true
 				}
+			}
+		}
+		return nil, false
+	}
+	if len(name) > 3 && name[:3] == "in_" {
+		for i, p := range fr.fn.Params {
+			if p.Name() == name[3:] && i < len(fr.args) {
+				return fr.args[i], true
 			}
 		}
 		return nil, false
